@@ -66,25 +66,19 @@ theorem tbl_forall_chars (Q : Nat × Nat × Nat → Bool) (P : Char → Nat → 
 
 /-! ### point facts (evaluating the lookup at one character) -/
 
-theorem tbl_bits_tab : classBits '\t' = 9 := by decide +kernel
-theorem tbl_bits_lf : classBits '\n' = 8 := by decide +kernel
-theorem tbl_bits_cr : classBits '\r' = 8 := by decide +kernel
-theorem tbl_bits_sp : classBits ' ' = 9 := by decide +kernel
-theorem tbl_bits_minus : classBits '-' = 0 := by decide +kernel
-theorem tbl_bits_lbrack : classBits '[' = 2 := by decide +kernel
-
-theorem tbl_ws_cr : realCharSpec.ws '\r' = false := by simp only [realCharSpec, tbl_bits_cr]; decide
-theorem tbl_ws_lf : realCharSpec.ws '\n' = false := by simp only [realCharSpec, tbl_bits_lf]; decide
-theorem tbl_word_cr : realCharSpec.wordChar '\r' = false := by simp only [realCharSpec, tbl_bits_cr]; decide
-theorem tbl_word_lf : realCharSpec.wordChar '\n' = false := by simp only [realCharSpec, tbl_bits_lf]; decide
-theorem tbl_uws_cr : realCharSpec.uws '\r' = true := by simp only [realCharSpec, tbl_bits_cr]; decide
-theorem tbl_uws_lf : realCharSpec.uws '\n' = true := by simp only [realCharSpec, tbl_bits_lf]; decide
-theorem tbl_ws_sp : realCharSpec.ws ' ' = true := by simp only [realCharSpec, tbl_bits_sp]; decide
-theorem tbl_uws_sp : realCharSpec.uws ' ' = true := by simp only [realCharSpec, tbl_bits_sp]; decide
-theorem tbl_word_sp : realCharSpec.wordChar ' ' = false := by simp only [realCharSpec, tbl_bits_sp]; decide
-theorem tbl_ws_minus : realCharSpec.ws '-' = false := by simp only [realCharSpec, tbl_bits_minus]; decide
-theorem tbl_ws_lbrack : realCharSpec.ws '[' = false := by simp only [realCharSpec, tbl_bits_lbrack]; decide
-theorem tbl_ws_tab : realCharSpec.ws '\t' = true := by simp only [realCharSpec, tbl_bits_tab]; decide
+/- each fact is exactly one clause of a side condition (nothing more is pinned down, so a lexer change that keeps
+   the clause keeps the proof) -/
+theorem tbl_ws_cr : realCharSpec.ws '\r' = false := by decide +kernel
+theorem tbl_ws_lf : realCharSpec.ws '\n' = false := by decide +kernel
+theorem tbl_word_cr : realCharSpec.wordChar '\r' = false := by decide +kernel
+theorem tbl_word_lf : realCharSpec.wordChar '\n' = false := by decide +kernel
+theorem tbl_uws_cr : realCharSpec.uws '\r' = true := by decide +kernel
+theorem tbl_uws_lf : realCharSpec.uws '\n' = true := by decide +kernel
+theorem tbl_ws_sp : realCharSpec.ws ' ' = true := by decide +kernel
+theorem tbl_uws_sp : realCharSpec.uws ' ' = true := by decide +kernel
+theorem tbl_word_sp : realCharSpec.wordChar ' ' = false := by decide +kernel
+theorem tbl_ws_minus : realCharSpec.ws '-' = false := by decide +kernel
+theorem tbl_ws_lbrack : realCharSpec.ws '[' = false := by decide +kernel
 
 /-! ### facts about all characters (decided on every range of the generated list) -/
 
